@@ -10,7 +10,10 @@ import time
 import vcommon as vc
 
 BARRIER = b"-1 ? stats2\n"
-IO_TIMEOUT = 60.0
+START_TIMEOUT = 60.0
+# A barrier is answered in well under a millisecond; a daemon that is alive but silent for this long has stopped
+# reading its input ("hang").  Hangs never become verdicts without being reproduced three times (hyprun.confirm).
+IO_TIMEOUT = float(os.environ.get("VERIF_HANG_S", "20"))
 
 _libc = ctypes.CDLL(None, use_errno=True)
 IN_CLOSE_NOWRITE = 0x10
@@ -152,7 +155,7 @@ class Daemon:
     def start(self):
         """Wait for the V banner, then synchronise with one barrier."""
         while True:
-            line = self._readline()
+            line = self._readline(timeout=START_TIMEOUT)
             if line is None:
                 self.died = True
                 raise DaemonDied(self.prestart)
